@@ -328,3 +328,16 @@ def main(ctx):
                            "property does not fix it, so the reference writer "
                            "uses the same value and checks all other bytes")
     return rep
+
+
+def mixed_cases(ctx):
+    from ecdsa import curves as cv
+    groups = []
+    for names in catalog.same_length_groups()[:4]:
+        items = []
+        for nm in names:
+            n = int(getattr(cv, nm).order)
+            for d in (1, 5, n - 5):
+                items.append(("real", dict(curve=nm, d=d)))
+        groups.append(items)
+    return groups
